@@ -575,3 +575,32 @@ def minimise(toks, pred, budget=250):
         if not changed:
             chunk //= 2
     return toks
+
+
+def fork_call(fn, *a, alarm=120):
+    """Run fn(*a) in an os.fork() child of this process; returns ('ok', value) or
+    ('err', text).  The child never returns into the caller's control flow."""
+    import pickle
+    import signal
+    r, w = os.pipe()
+    pid = os.fork()
+    if pid == 0:
+        try:
+            os.close(r)
+            signal.alarm(alarm)
+            try:
+                out = ("ok", fn(*a))
+            except BaseException as e:  # noqa
+                out = ("err", "%s: %s" % (type(e).__name__, "".join(
+                    traceback.format_exception(type(e), e, e.__traceback__))[-1500:]))
+            with os.fdopen(w, "wb") as f:
+                pickle.dump(out, f)
+        finally:
+            os._exit(0)
+    os.close(w)
+    with os.fdopen(r, "rb") as f:
+        data = f.read()
+    os.waitpid(pid, 0)
+    if not data:
+        return ("err", "child died without a result")
+    return pickle.loads(data)
